@@ -21,9 +21,20 @@ static unsigned char g_old_j;     /* content of block[g_j] before the call */
 /* container visitors */
 static unsigned long g_vis_calls;  /* accept() calls so far == number of slots walked */
 static unsigned long g_vis_len;    /* length of the list */
-static unsigned long g_tok;        /* number of bytes written so far (token monitor) */
-static _Bool g_vis_bad;
+static unsigned long g_vis_seps;   /* separators written so far */
+static unsigned long g_vis_child;  /* bytes written by the children (accept contract: any number) */
+static unsigned long g_vis_c0;     /* count before the call */
+static _Bool g_vis_open, g_vis_close;
+static unsigned int g_cur_id;      /* id handed to the last getVariant */
+static void *g_node_p;             /* the slot object returned by getVariant */
+static unsigned long g_p_ind;      /* pretty: indentation units written since the last other token */
+static unsigned long g_p_n0;       /* pretty: nesting_ at entry */
+static unsigned long g_p_lookups;  /* pretty: getVariant calls so far */
+static unsigned long g_p_bytes;    /* pretty: bytes written by the visitor itself */
+#define VIS_SUCC(k) ((k) + 1 < g_vis_len ? (unsigned int)((k) + 1) : 0xffffffffu) /* id after slot k; ids are 0..len-1 in list order */
+#define VIS_SEPS_AT_HEAD (g_vis_calls < g_vis_len ? g_vis_calls : (g_vis_len ? g_vis_len - 1 : 0))
 
+unsigned long nondet_child_bytes(void);
 #ifdef VERIF_NATIVE
 #include "lowered_types.h"
 #else
@@ -42,7 +53,7 @@ static unsigned long g_out_len;
 static unsigned long g_ret_sum; /* sum of the returned counts */
 static unsigned long g_room;    /* capacity of the destination */
 
-#if defined(U_FMT) || defined(U_FLOAT) || defined(U_VISIT) || defined(U_PRETTY) || defined(U_COUNT) || defined(U_STRB)
+#if defined(U_FMT) || defined(U_FLOAT) || defined(U_PRETTY)
 unsigned long LogWriter__write__uchar(struct LogWriter *self, unsigned char c) {
   (void)self;
   if (g_out_len < LOG_CAP) g_out[g_out_len] = c;
@@ -693,3 +704,387 @@ void h_dummy(void) {
   CHECK(CountingDecorator_DummyWriter__count(&cd) == c0 + 1 + n, "measure: the count is the number of bytes offered");
 }
 #endif /* U_SW */
+
+/* ===================================================================================================================
+ * unit jsonser_tail: serialize<JsonSerializer>(source, buffer, size) - the terminator  (class U, loop-free)
+ * doSerialize<JsonSerializer, StaticStringWriter> is under contract: it receives a writer for exactly [buffer, buffer+size)
+ * and the source unchanged, and returns a count n.  n is left ARBITRARY (the writer contract gives n <= size; the check
+ * does not rely on it): the terminating NUL is stored iff n < size, at buffer[n], and nothing else is touched.
+ * =================================================================================================================== */
+#ifdef U_TAIL
+static unsigned long g_ds_ret, g_ds_calls;
+static struct JsonVariantConst g_ds_src;
+static struct StaticStringWriter g_ds_writer;
+unsigned long doSerialize_StaticStringWriter__JsonVariantConst_StaticStringWriter(struct JsonVariantConst source, struct StaticStringWriter writer) {
+  g_ds_calls++;
+  g_ds_src = source;
+  g_ds_writer = writer;
+  return g_ds_ret;
+}
+#define TAIL_MAX 0x7fffffffUL
+void h_tail(void) {
+  unsigned long size = in_size();
+  __CPROVER_assume(size <= TAIL_MAX);
+  char *buf = malloc(size); /* exactly size bytes: a store at buf[size] is a cbmc bounds failure */
+  __CPROVER_assume(buf != 0);
+  unsigned long j = in_size(); /* any position of the buffer */
+  __CPROVER_assume(size == 0 || j < size);
+  unsigned char old_j = size ? (unsigned char)buf[j] : 0;
+  __CPROVER_assume(size == 0 || old_j != 0); /* so that a stored NUL is observable */
+  struct VariantData *vd = 0;
+  struct ResourceManager *rm = 0;
+  struct JsonVariantConst src;
+  src.data_ = in_bool() ? vd : (struct VariantData *)buf; /* two distinguishable pointer values; never dereferenced here */
+  src.resources_ = rm;
+  g_ds_ret = in_size();
+  g_ds_calls = 0;
+  unsigned long n = g_ds_ret;
+  unsigned long r = force__ser_buf_json(src, buf, size);
+  COVER(n < size); COVER(n == size && size > 0); COVER(n > size); COVER(size == 0); COVER(n + 1 == size);
+  CHECK(g_ds_calls == 1 && g_ds_src.data_ == src.data_ && g_ds_src.resources_ == src.resources_, "the source is serialized once");
+  CHECK(g_ds_writer.p == buf && g_ds_writer.end == buf + size, "the writer covers exactly [buffer, buffer + size)");
+  CHECK(r == n, "the returned count is the number of bytes produced (terminator not counted)");
+  if (size) {
+    if (j == n) CHECK(buf[j] == 0, "a terminating NUL is stored iff length < n: stored at buffer[length]");
+#ifdef CANARY_TAIL
+    /* the snprintf reading of the sentence ("always terminated, inside the buffer") is NOT what the property says */
+    else if (j == size - 1 && n >= size) CHECK(buf[j] == 0, "canary: truncated output is terminated");
+#endif
+    else CHECK((unsigned char)buf[j] == old_j, "no byte other than buffer[length] is written by the tail; none when length >= n");
+  }
+}
+#endif /* U_TAIL */
+
+/* ===================================================================================================================
+ * unit jsonser_visit: JsonSerializer<LogWriter>::visit(...)   (loop contracts in contracts/jsonser_visit.loops.json)
+ * Containers [U]: the list is under contract - getVariant(id) returns a slot whose next() is the successor id, ids are
+ * 0..len-1 in list order (the visitor only compares ids with NULL_SLOT and hands them to getVariant); accept(slot) is under
+ * contract: it may write any number of bytes through the same formatter.  A monitor in the writer/accept/getVariant stubs
+ * checks the token sequence:  '[' accept(0) ',' accept(1) ... ']'   and   '{' accept(0) ':' accept(1) ',' accept(2) ':' ... '}'.
+ * Scalars [U]: each visit hands its argument unchanged to the TextFormatter routine proved in jsonser_fmt/jsonser_sw/jsonser_float,
+ * literals and raw values are checked on the writer.
+ * =================================================================================================================== */
+#ifdef U_VISIT
+static int g_lw_mode; /* 0: container monitor; 1: record the call */
+static _Bool g_vis_object;
+static struct VariantData g_node;  /* the slot returned by getVariant */
+static struct ResourceManager *g_rm;
+static struct JsonSerializer_LogWriter *g_ser;
+static unsigned long g_lw_calls, g_lw_n;
+static unsigned char *g_lw_s;
+static unsigned char g_lw_c;
+
+unsigned long LogWriter__write__uchar(struct LogWriter *self, unsigned char c) {
+  (void)self;
+  if (g_lw_mode == 1) { g_lw_calls++; g_lw_c = c; return 1; }
+  if (!g_vis_open) {
+    CHECK(c == (g_vis_object ? '{' : '['), "container: opening bracket first");
+    CHECK(g_vis_calls == 0, "container: opening bracket before any element");
+    g_vis_open = 1;
+  } else if (g_vis_calls == g_vis_len && g_vis_seps == (g_vis_len ? g_vis_len - 1 : 0)) {
+    CHECK(!g_vis_close, "container: one closing bracket");
+    CHECK(c == (g_vis_object ? '}' : ']'), "container: closing bracket after the last element");
+    g_vis_close = 1;
+  } else {
+    CHECK(!g_vis_close, "container: nothing after the closing bracket");
+    CHECK(g_vis_seps + 1 == g_vis_calls && g_vis_calls < g_vis_len, "container: exactly one separator between two elements, none after the last");
+#ifdef CANARY_VISIT
+    if (g_vis_object) CHECK(c == ((g_vis_calls & 1) && g_vis_calls != 5 ? ':' : ','), "object: ':' after a key, ',' after a value");
+#else
+    if (g_vis_object) CHECK(c == ((g_vis_calls & 1) ? ':' : ','), "object: ':' after a key, ',' after a value");
+#endif
+    else CHECK(c == ',', "array: elements separated by ','");
+    g_vis_seps++;
+  }
+  return 1;
+}
+unsigned long LogWriter__write__uchar_p_ulong(struct LogWriter *self, unsigned char *s, unsigned long n) {
+  (void)self;
+  if (g_lw_mode == 1) { g_lw_calls++; g_lw_s = s; g_lw_n = n; return n; }
+  CHECK(0, "container: the compact visitor writes single characters only");
+  return n;
+}
+struct VariantData *ResourceManager__getVariant(struct ResourceManager *self, unsigned int id) {
+  CHECK(self == g_rm, "container: slots are looked up in the serializer's resources");
+#ifdef CANARY_VISIT_ORDER
+  CHECK(id == g_vis_calls + (g_vis_calls == 2) && g_vis_calls < g_vis_len, "container: slots are visited in list order, each once");
+#else
+  CHECK(id == g_vis_calls && g_vis_calls < g_vis_len, "container: slots are visited in list order, each once");
+#endif
+  g_cur_id = id;
+  g_node.next_ = VIS_SUCC((unsigned long)id);
+  return &g_node;
+}
+unsigned long VariantData__accept_JsonSerializer_LogWriter__JsonSerializer_LogWriter_r_ResourceManager_p(struct VariantData *self, struct JsonSerializer_LogWriter *visit, struct ResourceManager *resources) {
+  CHECK(self == &g_node && g_cur_id == g_vis_calls, "container: the slot just looked up is serialized");
+  CHECK(visit == g_ser && resources == g_rm, "container: children are serialized by the same serializer and resources");
+  CHECK(g_vis_open && !g_vis_close && g_vis_seps == g_vis_calls, "container: one separator precedes every element but the first");
+  g_vis_calls++;
+  unsigned long nbytes = nondet_child_bytes();
+  g_vis_child += nbytes;
+  visit->formatter_.writer_.count_ += nbytes; /* the child writes any number of bytes through the same counting writer */
+  return visit->formatter_.writer_.count_;
+}
+static void visit_init(struct JsonSerializer_LogWriter *ser) {
+  struct LogWriter w;
+  memset(&w, 0, sizeof w);
+  memset(ser, 0, sizeof *ser);
+  g_rm = (struct ResourceManager *)malloc(1); /* an address; never dereferenced by the visitor (getVariant is a stub) */
+  JsonSerializer_LogWriter__ctor__LogWriter_ResourceManager_p(ser, w, g_rm);
+  CHECK(ser->resources_ == g_rm && ser->formatter_.writer_.count_ == 0, "serializer constructed with count 0");
+  g_ser = ser;
+  g_node_p = &g_node;
+  g_vis_c0 = in_size();
+  ser->formatter_.writer_.count_ = g_vis_c0; /* any number of bytes already written by the enclosing containers */
+  g_vis_calls = 0; g_vis_seps = 0; g_vis_child = 0; g_vis_open = 0; g_vis_close = 0;
+  g_lw_mode = 0; g_lw_calls = 0;
+}
+#define VIS_MAX 0x7ffffffful
+static void check_container(struct JsonSerializer_LogWriter *ser, unsigned long r) {
+  CHECK(g_vis_open && g_vis_close, "container: opened and closed");
+  CHECK(g_vis_calls == g_vis_len, "container: every slot of the list is serialized exactly once");
+  CHECK(g_vis_seps == (g_vis_len ? g_vis_len - 1 : 0), "container: len-1 separators");
+  CHECK(r == g_vis_c0 + 2 + g_vis_seps + g_vis_child && r == ser->formatter_.writer_.count_, "returned count == number of bytes produced so far");
+}
+void h_visit_array(void) {
+  struct JsonSerializer_LogWriter ser;
+  visit_init(&ser);
+  g_vis_object = 0;
+  g_vis_len = in_size();
+  __CPROVER_assume(g_vis_len <= VIS_MAX);
+  struct ArrayData arr;
+  memset(&arr, 0, sizeof arr);
+  arr._b_CollectionData.head_ = g_vis_len ? 0u : NULL_SLOT;
+  arr._b_CollectionData.tail_ = g_vis_len ? (unsigned int)(g_vis_len - 1) : NULL_SLOT;
+  unsigned long r = JsonSerializer_LogWriter__visit__ArrayData_r(&ser, &arr);
+  COVER(g_vis_len == 0); COVER(g_vis_len == 1); COVER(g_vis_len > 70000);
+  check_container(&ser, r);
+}
+void h_visit_object(void) {
+  struct JsonSerializer_LogWriter ser;
+  visit_init(&ser);
+  g_vis_object = 1;
+  g_vis_len = in_size(); /* key and value slots alternate; even for a well-formed object, not needed by the check */
+  __CPROVER_assume(g_vis_len <= VIS_MAX);
+  struct ObjectData obj;
+  memset(&obj, 0, sizeof obj);
+  obj._b_CollectionData.head_ = g_vis_len ? 0u : NULL_SLOT;
+  obj._b_CollectionData.tail_ = g_vis_len ? (unsigned int)(g_vis_len - 1) : NULL_SLOT;
+  unsigned long r = JsonSerializer_LogWriter__visit__ObjectData_r(&ser, &obj);
+  COVER(g_vis_len == 0); COVER(g_vis_len == 2); COVER(g_vis_len == 4); COVER(g_vis_len > 70000);
+  check_container(&ser, r);
+}
+/* ---- scalar visits: the argument reaches the TextFormatter routine unchanged; literals / raw values reach the writer ---- */
+static int g_ev;              /* which formatter routine was called (0 none) */
+static unsigned g_ev_calls;
+static int64_t g_ev_i64; static uint64_t g_ev_u64; static double g_ev_f64; static float g_ev_f32;
+static char *g_ev_p; static unsigned long g_ev_n;
+#define EV(code) do { g_ev = (code); g_ev_calls++; self->writer_.count_ += nondet_child_bytes(); } while (0)
+void TextFormatter_LogWriter__writeInteger_long(struct TextFormatter_LogWriter *self, long value) { g_ev_i64 = value; EV(1); }
+void TextFormatter_LogWriter__writeInteger_ulong(struct TextFormatter_LogWriter *self, unsigned long value) { g_ev_u64 = value; EV(2); }
+void TextFormatter_LogWriter__writeString__char_p(struct TextFormatter_LogWriter *self, char *value) { g_ev_p = value; EV(3); }
+void TextFormatter_LogWriter__writeString__char_p_ulong(struct TextFormatter_LogWriter *self, char *value, unsigned long n) { g_ev_p = value; g_ev_n = n; EV(4); }
+void TextFormatter_LogWriter__writeFloat_double(struct TextFormatter_LogWriter *self, double value) { g_ev_f64 = value; EV(5); }
+void TextFormatter_LogWriter__writeFloat_float(struct TextFormatter_LogWriter *self, float value) { g_ev_f32 = value; EV(6); }
+static void scalar_init(struct JsonSerializer_LogWriter *ser) {
+  visit_init(ser);
+  g_lw_mode = 1; g_ev = 0; g_ev_calls = 0;
+}
+#define RET_OK(ser, r) CHECK((r) == (ser)->formatter_.writer_.count_, "visit returns the number of bytes written so far")
+#define LITERAL(lit) (g_lw_calls == 1 && g_ev_calls == 0 && g_lw_n == sizeof(lit) - 1 && memcmp(g_lw_s, lit, sizeof(lit) - 1) == 0)
+void h_visit_scalars(void) {
+  struct JsonSerializer_LogWriter ser;
+  scalar_init(&ser);
+  unsigned which = in_u8();
+  unsigned long r;
+  static char text[4] = {'a', 0, 'b', 'c'};
+  COVER(which == 0); COVER(which == 1); COVER(which == 2); COVER(which == 3); COVER(which == 4); COVER(which == 5);
+  COVER(which == 6); COVER(which == 7); COVER(which == 8);
+  switch (which) {
+    case 0: { int64_t v = in_i64(); r = JsonSerializer_LogWriter__visit__long(&ser, v);
+      CHECK(g_ev == 1 && g_ev_calls == 1 && g_lw_calls == 0 && g_ev_i64 == v, "JsonInteger: every bit reaches writeInteger<int64_t>"); break; }
+    case 1: { uint64_t v = in_u64(); r = JsonSerializer_LogWriter__visit__ulong(&ser, v);
+#ifdef CANARY_SCALARS
+      CHECK(g_ev == 2 && g_ev_calls == 1 && g_lw_calls == 0 && g_ev_u64 == (v == (1ull << 63) ? 0 : v), "JsonUInt: every bit reaches writeInteger<uint64_t>"); break; }
+#else
+      CHECK(g_ev == 2 && g_ev_calls == 1 && g_lw_calls == 0 && g_ev_u64 == v, "JsonUInt: every bit reaches writeInteger<uint64_t>"); break; }
+#endif
+    case 2: { r = JsonSerializer_LogWriter__visit__char_p(&ser, text);
+      CHECK(g_ev == 3 && g_ev_calls == 1 && g_lw_calls == 0 && g_ev_p == text, "const char*: written by writeString(p)"); break; }
+    case 3: { struct JsonString js; memset(&js, 0, sizeof js); js.data_ = text; js.size_ = in_size(); js.ownership_ = in_bool();
+      r = JsonSerializer_LogWriter__visit__JsonString(&ser, js);
+      CHECK(g_ev == 4 && g_ev_calls == 1 && g_lw_calls == 0 && g_ev_p == text && g_ev_n == js.size_, "JsonString: written by writeString(p, size) - sized, NULs included"); break; }
+    case 4: { struct SerializedValue_char_p raw; memset(&raw, 0, sizeof raw); raw.data_ = text; raw.size_ = in_size();
+      r = JsonSerializer_LogWriter__visit__SerializedValue_char_p(&ser, raw);
+      CHECK(g_ev_calls == 0 && g_lw_calls == 1 && g_lw_s == (unsigned char *)text && g_lw_n == raw.size_, "raw values are written verbatim: exactly size bytes from data"); break; }
+    case 5: { _Bool b = in_bool(); r = JsonSerializer_LogWriter__visit___Bool(&ser, b);
+      CHECK(b ? LITERAL("true") : LITERAL("false"), "booleans are the literals true / false"); break; }
+    case 6: { r = JsonSerializer_LogWriter__visit__void_p(&ser, 0);
+      CHECK(LITERAL("null"), "null is the literal null"); break; }
+    case 7: { double v = in_f64(); r = JsonSerializer_LogWriter__visit_double(&ser, v);
+      CHECK(g_ev == 5 && g_ev_calls == 1 && g_lw_calls == 0 && memcmp(&g_ev_f64, &v, 8) == 0, "double: every bit reaches writeFloat<double>"); break; }
+    default: { float v = in_f32(); r = JsonSerializer_LogWriter__visit_float(&ser, v);
+      CHECK(g_ev == 6 && g_ev_calls == 1 && g_lw_calls == 0 && memcmp(&g_ev_f32, &v, 4) == 0, "float: every bit reaches writeFloat<float>"); break; }
+  }
+  RET_OK(&ser, r);
+}
+#endif /* U_VISIT */
+
+
+/* ===================================================================================================================
+ * unit jsonser_pretty: PrettyJsonSerializer<LogWriter>::visit(ArrayData/ObjectData), indent
+ * (loop contracts in contracts/jsonser_pretty.loops.json, class U; strlen of the literals unwound)
+ * Same contracts for the list and for accept as in jsonser_visit.  Token monitor on the writer: with T = ARDUINOJSON_TAB ("  ")
+ * and n = nesting_ at entry,
+ *   empty:  "[]" / "{}"
+ *   array:  "[\r\n"  { T^(n+1) accept(k) (",\r\n" | "\r\n" after the last) }  T^n "]"
+ *   object: "{\r\n"  { T^(n+1) accept(key) ": " accept(value) (",\r\n" | "\r\n" after the last) }  T^n "}"
+ * i.e. the compact token sequence '[' e ',' e ']' / '{' k ':' v ',' ... '}' with only CR LF, T and one space after ':' inserted.
+ * Precondition: nesting_ <= 254 at entry (uint8_t nesting_ wraps at 256 levels: indentation only, stated in the evidence).
+ * =================================================================================================================== */
+#ifdef U_PRETTY_V
+enum { T_BAD, T_CLOSE, T_EMPTY, T_INDENT, T_NL, T_COLON, T_OPEN, T_SEPNL };
+static _Bool g_vis_object;
+static struct VariantData g_node;
+static struct ResourceManager *g_rm;
+static struct PrettyJsonSerializer_LogWriter *g_pser;
+static int tok(const unsigned char *s, unsigned long n) {
+  char open = g_vis_object ? '{' : '[', close = g_vis_object ? '}' : ']';
+  if (n == 1) return s[0] == close ? T_CLOSE : T_BAD;
+  if (n == 2) {
+    if (s[0] == open && s[1] == close) return T_EMPTY;
+    if (s[0] == ' ' && s[1] == ' ') return T_INDENT; /* ARDUINOJSON_TAB, default configuration */
+    if (s[0] == '\r' && s[1] == '\n') return T_NL;
+    if (s[0] == ':' && s[1] == ' ') return T_COLON;
+    return T_BAD;
+  }
+  if (n == 3 && s[1] == '\r' && s[2] == '\n') return s[0] == open ? T_OPEN : s[0] == ',' ? T_SEPNL : T_BAD;
+  return T_BAD;
+}
+unsigned long LogWriter__write__uchar(struct LogWriter *self, unsigned char c) {
+  (void)self; (void)c;
+  CHECK(0, "pretty: the container visitors write literal strings only");
+  return 1;
+}
+unsigned long LogWriter__write__uchar_p_ulong(struct LogWriter *self, unsigned char *s, unsigned long n) {
+  (void)self;
+  CHECK(n >= 1 && n <= 3, "pretty: tokens of 1..3 bytes");
+  int t = (n >= 1 && n <= 3) ? tok(s, n) : T_BAD;
+  _Bool all_done = g_vis_calls == g_vis_len && g_vis_seps == g_vis_len;
+  g_p_bytes += n;
+  switch (t) {
+    case T_EMPTY:
+      CHECK(!g_vis_open && g_vis_len == 0, "pretty: an empty container is [] / {}");
+      g_vis_open = 1; g_vis_close = 1;
+      break;
+    case T_OPEN:
+      CHECK(!g_vis_open && g_vis_len > 0, "pretty: opening bracket + CR LF first");
+      g_vis_open = 1;
+      break;
+    case T_INDENT:
+      CHECK(g_vis_open && !g_vis_close, "pretty: indentation inside the container only");
+      CHECK(g_vis_seps == g_vis_calls, "pretty: indentation only at the beginning of a line");
+      CHECK(g_p_ind < (all_done ? g_p_n0 : g_p_n0 + 1), "pretty: at most nesting indentation units per line");
+      if (g_vis_object && !all_done) CHECK((g_vis_calls & 1) == 0, "pretty: no indentation between ':' and the value");
+      g_p_ind++;
+      break;
+    case T_COLON:
+      CHECK(g_vis_object && g_vis_open && !g_vis_close && g_vis_seps + 1 == g_vis_calls && (g_vis_calls & 1) && g_p_ind == 0,
+            "pretty: ':' and one space after a key");
+      g_vis_seps++;
+      break;
+    case T_SEPNL:
+#ifdef CANARY_PRETTY
+      CHECK(g_vis_open && !g_vis_close && g_vis_seps + 1 == g_vis_calls && g_vis_calls <= g_vis_len && g_p_ind == 0 && (!g_vis_object || !(g_vis_calls & 1)),
+            "pretty: ',' CR LF between two elements / members");
+#else
+      CHECK(g_vis_open && !g_vis_close && g_vis_seps + 1 == g_vis_calls && g_vis_calls < g_vis_len && g_p_ind == 0 && (!g_vis_object || !(g_vis_calls & 1)),
+            "pretty: ',' CR LF between two elements / members");
+#endif
+      g_vis_seps++;
+      break;
+    case T_NL:
+      CHECK(g_vis_open && !g_vis_close && g_vis_seps + 1 == g_vis_calls && g_vis_calls == g_vis_len && g_p_ind == 0 && (!g_vis_object || !(g_vis_calls & 1)),
+            "pretty: CR LF without ',' after the last element / member");
+      g_vis_seps++;
+      break;
+    case T_CLOSE:
+      CHECK(g_vis_open && !g_vis_close && all_done && g_vis_len > 0, "pretty: closing bracket after the last line");
+      CHECK(g_p_ind == g_p_n0, "pretty: the closing bracket is indented by the enclosing nesting");
+      g_vis_close = 1;
+      break;
+    default:
+      CHECK(0, "pretty: only [ ] { } , : CR LF, TAB and one space are written by the container visitors");
+  }
+  return n;
+}
+struct VariantData *ResourceManager__getVariant(struct ResourceManager *self, unsigned int id) {
+  CHECK(self == g_rm, "container: slots are looked up in the serializer's resources");
+  CHECK(id == (g_p_lookups < g_vis_len ? (unsigned int)g_p_lookups : NULL_SLOT), "container: slots are looked up in list order, then the end of the list");
+  g_p_lookups++;
+  if (id == NULL_SLOT) return 0;
+  g_cur_id = id;
+  g_node.next_ = VIS_SUCC((unsigned long)id);
+  return &g_node;
+}
+unsigned long VariantData__accept_PrettyJsonSerializer_LogWriter__PrettyJsonSerializer_LogWriter_r_ResourceManager_p(struct VariantData *self, struct PrettyJsonSerializer_LogWriter *visit, struct ResourceManager *resources) {
+  CHECK(self == &g_node && g_cur_id == g_vis_calls && g_vis_calls < g_vis_len, "container: slots are serialized in list order, each once");
+  CHECK(visit == g_pser && resources == g_rm, "container: children are serialized by the same serializer and resources");
+  CHECK(visit->nesting_ == g_p_n0 + 1, "pretty: children are serialized one level deeper");
+  CHECK(g_vis_open && !g_vis_close && g_vis_seps == g_vis_calls, "pretty: a separator precedes every element but the first");
+  CHECK(g_p_ind == ((g_vis_object && (g_vis_calls & 1)) ? 0 : g_p_n0 + 1), "pretty: every element / key is indented by nesting + 1 units, values follow ': ' directly");
+  g_p_ind = 0;
+  g_vis_calls++;
+  unsigned long nbytes = nondet_child_bytes();
+  g_vis_child += nbytes;
+  visit->_b_JsonSerializer_LogWriter.formatter_.writer_.count_ += nbytes;
+  return visit->_b_JsonSerializer_LogWriter.formatter_.writer_.count_;
+}
+#define PCOUNT(ser) ((ser)->_b_JsonSerializer_LogWriter.formatter_.writer_.count_)
+static void pretty_init(struct PrettyJsonSerializer_LogWriter *ser, _Bool object) {
+  struct LogWriter w;
+  memset(&w, 0, sizeof w);
+  memset(ser, 0xff, sizeof *ser);
+  g_rm = (struct ResourceManager *)malloc(1);
+  PrettyJsonSerializer_LogWriter__ctor__LogWriter_ResourceManager_p(ser, w, g_rm);
+  CHECK(ser->_b_JsonSerializer_LogWriter.resources_ == g_rm && PCOUNT(ser) == 0 && ser->nesting_ == 0, "pretty serializer constructed with count 0, nesting 0");
+  g_pser = ser; g_node_p = &g_node; g_vis_object = object;
+  g_vis_c0 = in_size();
+  PCOUNT(ser) = g_vis_c0;
+  g_p_n0 = in_u8();
+  __CPROVER_assume(g_p_n0 <= 254);
+  ser->nesting_ = (unsigned char)g_p_n0;
+  g_vis_len = in_size();
+  __CPROVER_assume(g_vis_len <= 0x7ffffffful);
+  g_vis_calls = 0; g_vis_seps = 0; g_vis_child = 0; g_vis_open = 0; g_vis_close = 0; g_p_ind = 0; g_p_lookups = 0; g_p_bytes = 0;
+}
+static void check_pretty(struct PrettyJsonSerializer_LogWriter *ser, unsigned long r) {
+  CHECK(g_vis_open && g_vis_close, "container: opened and closed");
+  CHECK(g_vis_calls == g_vis_len, "container: every slot of the list is serialized exactly once");
+  CHECK(ser->nesting_ == g_p_n0, "pretty: nesting restored");
+  CHECK(r == g_vis_c0 + g_p_bytes + g_vis_child && r == PCOUNT(ser), "returned count == number of bytes produced so far");
+}
+void h_pretty_array(void) {
+  struct PrettyJsonSerializer_LogWriter ser;
+  pretty_init(&ser, 0);
+  struct ArrayData arr;
+  memset(&arr, 0, sizeof arr);
+  arr._b_CollectionData.head_ = g_vis_len ? 0u : NULL_SLOT;
+  arr._b_CollectionData.tail_ = g_vis_len ? (unsigned int)(g_vis_len - 1) : NULL_SLOT;
+  unsigned long r = PrettyJsonSerializer_LogWriter__visit__ArrayData_r(&ser, &arr);
+  COVER(g_vis_len == 0); COVER(g_vis_len == 1); COVER(g_vis_len > 70000); COVER(g_p_n0 == 254); COVER(g_p_n0 == 0);
+  check_pretty(&ser, r);
+}
+void h_pretty_object(void) {
+  struct PrettyJsonSerializer_LogWriter ser;
+  pretty_init(&ser, 1);
+  __CPROVER_assume((g_vis_len & 1) == 0); /* well-formed object list: key and value slots alternate (C04 collection invariant) */
+  struct ObjectData obj;
+  memset(&obj, 0, sizeof obj);
+  obj._b_CollectionData.head_ = g_vis_len ? 0u : NULL_SLOT;
+  obj._b_CollectionData.tail_ = g_vis_len ? (unsigned int)(g_vis_len - 1) : NULL_SLOT;
+  unsigned long r = PrettyJsonSerializer_LogWriter__visit__ObjectData_r(&ser, &obj);
+  COVER(g_vis_len == 0); COVER(g_vis_len == 2); COVER(g_vis_len > 70000); COVER(g_p_n0 == 254); COVER(g_p_n0 == 0);
+  check_pretty(&ser, r);
+}
+#endif /* U_PRETTY_V */
